@@ -230,7 +230,7 @@ func ruleR15_2(p *Program, r *Report) {
 			}
 			ci := callInfo(c)
 			inner := ci.IfaceM != nil && ci.IfaceM.Name() == "Read"
-			if f := ci.Static; f != nil && f.Name() == "step" {
+			if f := ci.Static; f != nil && f == p.Method(flateRel, "decompressor", "step") {
 				inner = true
 			}
 			if !inner {
